@@ -144,25 +144,27 @@ Definition judge_sparse (d : dataset) (r : request) (cols : list (list Z)) (chan
 Definition all_clauses (d : dataset) : list Z :=
   match d_cols d with None => [1; 21; 22; 23] | Some _ => [1; 24; 25; 26] end.
 
-(* judge the observed record o (None = malformed / crash) of request r *)
+(* judge the observed record o (None = crash, Some None = malformed) of request r *)
 Definition judge (d : dataset) (r : request) (o : option (option trec)) : list Z :=
-  match get_template sa d r with
-  | None => match o with None => [] | Some _ => [1] end        (* the model raises: so must the code *)
-  | Some m =>
-      match o with
-      | None | Some None => all_clauses d
-      | Some (Some o) =>
-          match d_cols d with
-          | None =>
-              match dense_full d r with
-              | Some T => if small T then judge_dense d r T m o else [3]
-              | None => [3]
-              end
-          | Some table =>
-              match nth_error (d_templates d) (r_tid r), nth_error table (r_tid r) with
-              | Some cols, Some chans => if small (t_template m) then judge_sparse d r cols chans m o else [3]
-              | _, _ => [3]
-              end
+  let mo := get_template sa d r in
+  match mo, o with
+  | None, None => []                                            (* the model raises, and so does the code *)
+  | Some _, None | Some _, Some None => all_clauses d
+  | None, Some None => [1]
+  | _, Some (Some o) =>
+      (* a record where the model raises is a mismatch; its clauses are still judged against the input *)
+      let m := match mo with Some m => m | None => o end in
+      flag 1 (match mo with Some _ => true | None => false end) ++
+      match d_cols d with
+      | None =>
+          match dense_full d r with
+          | Some T => if small T then judge_dense d r T m o else [3]
+          | None => []
+          end
+      | Some table =>
+          match nth_error (d_templates d) (r_tid r), nth_error table (r_tid r) with
+          | Some cols, Some chans => if small (t_template m) then judge_sparse d r cols chans m o else [3]
+          | _, _ => []
           end
       end
   end.
